@@ -78,6 +78,12 @@ def check_stencils(prob, mode, spec, fdlog, stats):
         x0 = e["x0"]
         if e["out"] is None:
             continue
+        if x0.shape != lb.shape or np.shape(e["out"]) != lb.shape:
+            # the package differences over a subset of the variables (a legitimate organisation of the work):
+            # the request cannot be compared one-to-one with the full-space scheme
+            if stats is not None:
+                stats.bump("differencing-request-in-a-reduced-space(not compared)")
+            continue
         f0 = prob.obj.f(x0)
         require(e["f0"] is not None and float(e["f0"]) == float(f0), "base-value-is-f(x)", f"jac={mode!r}: differencing at x uses f0={e['f0']!r} but f(x)={f0!r}")
         ref_pts = []
